@@ -22,9 +22,13 @@ ASSUMPTIONS = list(c05.ASSUMPTIONS) + [
 TRUSTED = list(c05.TRUSTED)
 
 
+def corpus(ctx):
+    return c05.corpus(ctx, 'contact_atoms', extends=(True,)) + c05.corpus(ctx, 'contact_residues')
+
+
 def cases(ctx):
-    out = c05.structure_cases(ctx, 'contact_atoms', ctx.scale(16, 200), family='extend', extends=(True,))
-    out += c05.structure_cases(ctx, 'contact_residues', ctx.scale(18, 200), family='residues')
+    out = c05.structure_cases(ctx, 'contact_atoms', ctx.scale(12, 200), family='extend', extends=(True,))
+    out += c05.structure_cases(ctx, 'contact_residues', ctx.scale(14, 200), family='residues')
     out += c05.malformed_cases(ctx, 'contact_residues', ctx.scale(4, 30))
     out += c05.file_cases(ctx, 'contact_atoms', extends=(True,))
     out += c05.file_cases(ctx, 'contact_residues')
